@@ -157,7 +157,8 @@ PROPS["C09"] = dict(
 PROPS["C10"] = dict(
     bounds="1-3 items per purpose (4 in the thorough tier) in the container's emitted order, every Plutus / native-script / key pattern; items themselves arbitrary (lazy)",
     assumptions=["containers are abstract sequences in their iteration order; for mint and inputs (BTreeMap) and votes/proposals that order is the sorted key order the body is emitted in, for certificates the insertion order",
-                 "KNOWN FINDING: withdrawals iterate in insertion order (LinkedHashMap) while the ledger indexes reward redeemers in reward-account order"],
+                 "withdrawals: the ledger's key order of reward accounts (network id, script credentials before key credentials, credential hash) is the specification; the account comparison is an uninterpreted strict total order "
+                 "in the rank / emission obligations and is itself checked against that specification with byte-string comparison of hashes uninterpreted"],
     e1=[],
     e2=["c10"],
 )
